@@ -53,14 +53,15 @@ def _check_query(cx: Cx, fn, manhattan: bool):
     paths = cx.walker.paths(fn, WalkOptions(unroll=1, domain='int', callee_raises=False))
     full = []
     for p in paths:
-        iters = [e for e in p.events if e.kind == 'iter']
+        # (a loop over a display written in place - the three axes - is straight-line code spelled as a loop, not a cell loop)
+        iters = [e for e in p.events if e.kind == 'iter' and e.data['info'].get('kind') != 'literal']
         if len(iters) == 3 and p.end != 'raise':
             full.append((p, iters))
     cx.floor(f"{fn.name}: paths through all three loops", len(full), 1)
     if not full:
         return
     for p in paths:
-        if p.end == 'return' and not [e for e in p.events if e.kind == 'loop' and not e.loops]:
+        if p.end == 'return' and not [e for e in p.events if e.kind == 'loop' and not e.loops and not e.data.get('literal')]:
             cx.violation('R-ITER', fn.qualname, 'every-answer-visits-the-clipped-ball',
                          f"{fn.name} returns on a path [{p.cond!r}] without running the three cell loops: cells (or the centre when "
                          f"incl_center is set) are missing from that answer", where=cx.where(fn, p.last.line), path=p.lines())
@@ -96,7 +97,9 @@ def _check_query(cx: Cx, fn, manhattan: bool):
             continue
         vars_ = [i['index'] for i in infos]
         # which axis does each loop variable denote?  from the value appended on this path
-        apps = [e for e in p.events if e.kind == 'store' and e.data.get('store') == 'append' and e.data.get('root_kind') == 'fresh']
+        cell_loops = {it.node.lineno for it in iters}
+        apps = [e for e in p.events if e.kind == 'store' and e.data.get('store') == 'append' and e.data.get('root_kind') == 'fresh'
+                and cell_loops <= set(e.loops)]        # appends made while visiting a cell (not helper lists built beforehand)
         val = apps[0].data.get('args', (None,))[0] if apps else None
         if is_tuple:
             tuple_paths.append((p, iters, vars_, apps))
@@ -214,10 +217,13 @@ def _check_query(cx: Cx, fn, manhattan: bool):
     else:
         viol('R-GUARD', 'unsupported-ret_type-raises-TypeError', f"{fn.name}: an unsupported ret_type does not raise TypeError",
              cx.where(fn))
-    with_apps = [(p, iters) for p, iters in full if any(e.kind == 'store' and e.data.get('store') == 'append' for e in p.events)]
+    def _cell_apps(p, iters):
+        cl = {it.node.lineno for it in iters}
+        return [e for e in p.events if e.kind == 'store' and e.data.get('store') == 'append' and cl <= set(e.loops)]
+    with_apps = [(p, iters) for p, iters in full if _cell_apps(p, iters)]
     for p, iters in with_apps[:1]:
         v = p.last.data.get('value') if p.end == 'return' else None
-        apps = [e for e in p.events if e.kind == 'store' and e.data.get('store') == 'append']
+        apps = _cell_apps(p, iters)
         if not (isinstance(v, Fresh) and apps and strip_versions(apps[0].data.get('target')) == v):
             viol('R-FRESH', 'returns-the-collected-list', f"{fn.name} returns {v!r}, not the list it collected", cx.where(fn))
 
